@@ -279,3 +279,118 @@ def run(ck, facts, tier):
         else:
             ck.violation(R, inst, b.where(), "the filter is applied %d time(s), %d of them against the goal being solved" % (len(cms), len(good)))
     ck.floor(R, "could_match-call-sites", n, 4)
+    sole_filter(ck, facts)
+
+
+def sole_filter(ck, facts):
+    """C18.SOLE-FILTER: the clause / impl pre-selection sites discard a candidate only on the verdict of could_match (or because the
+    candidate belongs to another trait)."""
+    from kit import bool_atoms, bool_eval, _Return
+    R = "C18.SOLE-FILTER"
+    ck.rule(R, "K4 (who-may-reject): in Forest::build_table, solve_from_clauses, program_clauses_for_goal and Program::impls_for_trait the "
+               "only element-dropping adaptors on the candidate clauses / impls are filter/retain with a predicate that is a conjunction of "
+               "could_match(..) calls and trait-id equality tests and is true when all of them are true; any further test (on variable "
+               "kinds, on the shape of the impl header ..) is a second pre-filter the unifier does not justify and changes answers "
+               "whenever it is stricter than unification")
+    DROPPERS = {"filter", "retain", "filter_map", "take_while", "skip_while", "take", "skip", "step_by", "find", "find_map", "position",
+                "nth", "retain_mut", "dedup", "dedup_by", "dedup_by_key", "truncate", "drain"}
+    users = ["chalk_engine::forest::Forest::build_table",
+             "chalk_recursive::solve::SolveIterationHelpers::solve_from_clauses",
+             "chalk_solve::clauses::program_clauses_for_goal",
+             "<chalk_integration::program::Program as chalk_solve::RustIrDatabase>::impls_for_trait"]
+    n = 0
+    for key in users:
+        b = need_body(ck, facts, R, key)
+        if not b:
+            continue
+        th = facts.thir(key)
+        closures = {}
+        for st in walk(th):
+            if st.get("k") == "let" and st.get("init") is not None and st["pat"].get("k") == "bind" and peel(st["init"]).get("k") == "closure":
+                closures[st["pat"]["n"]] = peel(st["init"])
+        seen = 0
+        for c in calls(th):
+            name = str(c.get("fn") or c.get("res") or "").split("::")[-1]
+            if name not in DROPPERS:
+                continue
+            seen += 1
+            inst = "%s:%s@%d" % (short(key), name, seen)
+            # only adaptors over the candidate stream count (element type ProgramClause / ImplDatum / ImplId)
+            stream_ty = str(c.get("ty", "")) + " " + " ".join(str(p.get("ty", "")) for p in (peel(c["args"][1]).get("params") or [])
+                                                              if isinstance(p, dict)) if len(c.get("args", [])) > 1 else str(c.get("ty", ""))
+            recv = peel(c["args"][0]) if c.get("args") else {}
+            stream_ty += " " + str(recv.get("ty", "")) if isinstance(recv, dict) else ""
+            on_candidates = any(t in stream_ty for t in ("ProgramClause", "ImplDatum", "ImplId"))
+            if name not in ("filter", "retain"):
+                if on_candidates:
+                    ck.violation(R, "%s:%s" % (short(key), name), b.where(c.get("ln")), "candidates are dropped by `%s`, not by the could_match filter" % name)
+                else:
+                    seen -= 1
+                continue
+            pred = peel(c["args"][1]) if len(c.get("args", [])) > 1 else None
+            if isinstance(pred, dict) and pred.get("k") == "var":
+                pred = closures.get(pred["n"])
+            if isinstance(pred, dict) and pred.get("k") == "closure" and pred.get("body") is not None \
+                    and not on_candidates and not has_call(pred["body"], "could_match"):
+                seen -= 1
+                continue        # a filter over some other stream (parameters, binders ..)
+            if not (isinstance(pred, dict) and pred.get("k") == "closure" and pred.get("body") is not None):
+                ck.violation(R, inst + ":unclassified", b.where(c.get("ln")), "cannot resolve the predicate of this %s to a closure" % name)
+                continue
+            body = pred["body"]
+            atoms = bool_atoms(body)
+            bad = []
+            for a in atoms:
+                if a.get("k") == "call" and callee_matches(a, "could_match"):
+                    continue
+                is_eq = (a.get("k") == "bin" and a.get("op") == "Eq") or (a.get("k") == "call" and callee_matches(a, "PartialEq::eq"))
+                if is_eq and any("trait_id" in str(v) for v in expr_vars(a) | {str(x.get("name")) for x in walk(a) if x.get("k") == "field"}):
+                    continue
+                bad.append(a)
+            try:
+                r = bool_eval(body, {id(a): True for a in atoms})
+            except _Return as e:
+                r = e.v
+            n += 1
+            if bad:
+                what = [str(a.get("fn") or a.get("res") or a.get("k")).split("::")[-1] for a in bad]
+                ck.violation(R, "%s:%s:extra-test" % (short(key), name), b.where(bad[0].get("ln") or c.get("ln")),
+                             "the predicate also tests %s: a candidate can be discarded although could_match accepts it" % what)
+            elif r is not True or not any(a.get("k") == "call" and callee_matches(a, "could_match") for a in atoms):
+                ck.violation(R, "%s:%s:not-a-conjunction" % (short(key), name), b.where(c.get("ln")),
+                             "the predicate is not `could_match(..)` (and trait-id equality): evaluates to %s when every test succeeds" % r)
+            else:
+                ck.ok(R, inst, "conjunction of %d test(s), all could_match / trait-id equality" % len(atoms))
+    ck.floor(R, "filter-sites", n, 8)
+
+
+def alias_rows(ck, facts, R):
+    """Shared with C07: normalization reaches an impl's value only if the clause pre-filter lets every (Alias, _) / (_, Alias) pair
+    through - a projection is not rigid, the unifier turns it into an AliasEq goal."""
+    ck.rule(R, "K1: MatchZipper::zip_tys answers constant `true` for every TyKind pair with an alias (projection / opaque) on either side; a "
+               "pre-filter that compares two projections structurally discards the Normalize-From-Impl clause (or the impl) whose "
+               "projection is spelled differently but denotes the same type")
+    zt = need_body(ck, facts, R, ZIP_TYS)
+    variants = facts.variants(TYKIND) or []
+    if not zt or not variants:
+        return
+    zm = tuple_match(zt.thir)
+    if len(zm) != 1:
+        ck.violation(R, "match-on-kind-pair", zt.where(), "expected one (TyKind, TyKind) match in zip_tys")
+        return
+    zm = zm[0]
+    n = 0
+    for ka in variants:
+        for kb in variants:
+            if "Alias" not in (ka, kb):
+                continue
+            n += 1
+            arms = select_arms(zm, T(V(ka), V(kb)))
+            inst = "zip_tys:(%s,%s)" % (ka, kb)
+            bad = [i for i, r in arms if not is_lit_bool(zm["arms"][i]["body"], True)]
+            if not arms or bad:
+                ck.violation(R, inst, zt.where(zm["arms"][bad[0]]["ln"] if bad else zt.ln), "an alias can be equal to any type, yet the pre-filter "
+                             "may answer something other than `true`")
+            else:
+                ck.ok(R, inst, "true")
+    ck.floor(R, "alias-pairs", n, 45)
